@@ -35,6 +35,34 @@ INTERCONNECTS = [
 ]
 
 
+def timeout_in_interconnect(ctx, rel, cls, tcls, dcls, r1="T1", r2="T2"):
+    """An interconnect that accepts timeout_cycles builds the watchdog from it, on the decoder's master bus and -- for the shared
+    form -- *after* the decoder (Migen: later comb assignments win; shared with C06)."""
+    m = ctx.mod(rel)
+    init = m.method(cls, "__init__")
+    params = [a.arg for a in init.args.args]
+    ctx.need("timeout_cycles" in params, f"{cls}.__init__ no longer accepts timeout_cycles (instance table stale)")
+    fx = fx_of(ctx, rel, cls)
+    fail_closed(ctx, fx, cls)
+    touts = [i for i in fx.insts if i.cls == tcls]
+    ok = len(touts) >= 1 and all(len(i.call.args) >= 2 and norm(i.call.args[1]) == "timeout_cycles" for i in touts) and \
+        all(("timeout_cycles is None", False) in i.pyguards for i in touts)
+    used = any(isinstance(n, ast.Name) and n.id == "timeout_cycles" and isinstance(n.ctx, ast.Load) for n in ast.walk(init))
+    ctx.ob(r1, rel, cls, "timeout_cycles builds a Timeout", ok,
+           "" if ok else (f"`timeout_cycles` is accepted by {cls}.__init__ but "
+                          + ("never read" if not used else "no " + tcls + " is built from it")
+                          + ": an access to an unmapped address or a silent slave hangs the bus forever"), init)
+    if ok and "Shared" in cls:
+        decs = [i for i in fx.insts if i.cls == dcls]
+        ok2 = len(decs) == 1 and all(t.order > decs[0].order for t in touts)
+        ctx.ob(r2, rel, cls, "Timeout constructed after the Decoder", ok2,
+               "" if ok2 else "the Timeout is built before the Decoder: the decoder's unconditional ack/ready/valid assignments "
+                              "come later and override the forced termination", touts[0].node)
+        # same bus as the decoder's master
+        ok3 = decs and norm(touts[0].call.args[0]) == norm(decs[0].call.args[0])
+        ctx.ob(r1, rel, cls, "Timeout watches the decoder's master bus", ok3, "" if ok3 else f"{touts[0]} vs {decs[0] if decs else None}", touts[0].node)
+
+
 def wb_timeout_body(ctx, rid):
     """wishbone.Timeout: counts only an unanswered request, terminates with ack + error data exactly on expiry (shared with C06:
     a watchdog that fires on an answered request gives the master a second termination / data that is not the slave's)."""
@@ -45,7 +73,7 @@ def wb_timeout_body(ctx, rid):
     ctx.ob(rid, WB, "Timeout", "wait = stb & cyc & ~ack", ok, "" if ok else f"timer.wait <= {w[0].v if w else '?'}", w[0].line if w else 0)
     for tgt, want in (("master.ack", "1"), ("self.error", "1"), ("master.dat_r", "2 ** len(master.dat_w) - 1")):
         ds = fx.find(domain="comb", target=tgt)
-        ok = len(ds) == 1 and ds[0].v == want and B.equivalent(ds[0].eff(), B.A("timer.done"))
+        ok = len(ds) == 1 and ds[0].v == want and q.EQ(ds[0], B.A("timer.done"))
         ctx.ob(rid, WB, "Timeout", f"{tgt} = {want} on expiry", ok,
                "" if ok else f"{tgt} <= {ds[0].v if ds else '(none)'} under {ds[0].gtext() if ds else '-'}", ds[0].line if ds else 0)
     ti = [i for i in fx.insts if i.cls == "WaitTimer" and i.call is not None]
@@ -69,29 +97,7 @@ def run(ctx):
 
     # ================================================================ T1 / T2
     for rel, cls, tcls, dcls in INTERCONNECTS:
-        m = ctx.mod(rel)
-        init = m.method(cls, "__init__")
-        params = [a.arg for a in init.args.args]
-        ctx.need("timeout_cycles" in params, f"{cls}.__init__ no longer accepts timeout_cycles (instance table stale)")
-        fx = fx_of(ctx, rel, cls)
-        fail_closed(ctx, fx, cls)
-        touts = [i for i in fx.insts if i.cls == tcls]
-        ok = len(touts) >= 1 and all(len(i.call.args) >= 2 and norm(i.call.args[1]) == "timeout_cycles" for i in touts) and \
-            all(("timeout_cycles is None", False) in i.pyguards for i in touts)
-        used = any(isinstance(n, ast.Name) and n.id == "timeout_cycles" and isinstance(n.ctx, ast.Load) for n in ast.walk(init))
-        ctx.ob("T1", rel, cls, "timeout_cycles builds a Timeout", ok,
-               "" if ok else (f"`timeout_cycles` is accepted by {cls}.__init__ but "
-                              + ("never read" if not used else "no " + tcls + " is built from it")
-                              + ": an access to an unmapped address or a silent slave hangs the bus forever"), init)
-        if ok and "Shared" in cls:
-            decs = [i for i in fx.insts if i.cls == dcls]
-            ok2 = len(decs) == 1 and all(t.order > decs[0].order for t in touts)
-            ctx.ob("T2", rel, cls, "Timeout constructed after the Decoder", ok2,
-                   "" if ok2 else "the Timeout is built before the Decoder: the decoder's unconditional ack/ready/valid assignments "
-                                  "come later and override the forced termination", touts[0].node)
-            # same bus as the decoder's master
-            ok3 = decs and norm(touts[0].call.args[0]) == norm(decs[0].call.args[0])
-            ctx.ob("T1", rel, cls, "Timeout watches the decoder's master bus", ok3, "" if ok3 else f"{touts[0]} vs {decs[0] if decs else None}", touts[0].node)
+        timeout_in_interconnect(ctx, rel, cls, tcls, dcls)
 
     # ================================================================ T3 wishbone
     wb_timeout_body(ctx, "T3")
@@ -123,11 +129,11 @@ def run(ctx):
             ctx.ob("T3", rel, cls, f"{kind}: wait condition = request pending without ready", ok,
                    "" if ok else f"{timer}.wait <= {w[0].v if w else '?'}", w[0].line if w else 0)
             er = [a for a in fx.find(domain="comb", target=f"{kind}_error") if a.state == st("WAIT")]
-            ok = len(er) == 1 and er[0].v == "1" and B.equivalent(er[0].eff(), B.from_expr(f"{timer}.done & {timer}.wait"))
+            ok = len(er) == 1 and er[0].v == "1" and q.EQ(er[0], B.from_expr(f"{timer}.done & {timer}.wait"))
             ctx.ob("T3", rel, cls, f"{kind}: error pulse on expiry while still waiting", ok,
                    "" if ok else f"{kind}_error under {er[0].gtext() if er else '?'}", er[0].line if er else 0)
             tr = [t for t in fx.trans if t.fsm == info.id and t.src == "WAIT"]
-            ok = len(tr) == 1 and tr[0].dst == "RESPOND" and B.equivalent(tr[0].eff(), B.from_expr(f"{timer}.done & {timer}.wait"))
+            ok = len(tr) == 1 and tr[0].dst == "RESPOND" and q.EQ(tr[0], B.from_expr(f"{timer}.done & {timer}.wait"))
             ctx.ob("T3", rel, cls, f"{kind}: WAIT -> RESPOND on done & wait only", ok,
                    "" if ok else f"{[(t.dst, t.gtext()) for t in tr]}: requests answered in time would be disturbed", tr[0].line if tr else 0)
             # RESPOND
@@ -164,7 +170,7 @@ def run(ctx):
                 ctx.ob("T3", rel, cls, f"{kind}: RESPOND {t} = {want}", ok,
                        "" if ok else f"{t} <= {d[0].v if d else '(not driven)'}", d[0].line if d else 0)
             tr = [t for t in fx.trans if t.fsm == info.id and t.src == "RESPOND"]
-            ok = len(tr) == 1 and tr[0].dst == "WAIT" and B.equivalent(tr[0].eff(), B.from_expr(exit_want))
+            ok = len(tr) == 1 and tr[0].dst == "WAIT" and q.EQ(tr[0], B.from_expr(exit_want))
             ctx.ob("T3", rel, cls, f"{kind}: RESPOND left only on the response handshake", ok,
                    "" if ok else f"{[(t.dst, t.gtext()) for t in tr]}", tr[0].line if tr else 0)
         ti = [i for i in fx.insts if i.cls == "WaitTimer" and i.call is not None]
